@@ -11,14 +11,15 @@ TECHNIQUE = "bounded alphabet/boundary enumeration against z3's exact evaluation
 RULE = "see per-task rule; exhaustive over the stated string and index sets"
 FUNCTIONS = []
 TRUSTED = ["z3 evaluates ground string terms exactly"]
-ASSUMPTIONS = ["strings of length <= 2 over the 15-character alphabet plus the listed digit/sign/escape cases"]
+ASSUMPTIONS = ["strings of length <= 2 over the 15-character alphabet plus the listed digit/sign/escape cases",
+               "constant translation: exhaustive over all strings of length <= 5 over the 9 characters of Z3's escape syntax (backslash u { } x 4 8 5 c) that contain a backslash"]
 
 
 def tasks(tier, seed=0):
     from vf import common
     kl = sorted({l for f in common.findings_for("C03") for l in f.get("labels", [])})
     out = []
-    for g, n in (("rel", 4), ("index", 6), ("misc", 2)):
+    for g, n in (("rel", 4), ("index", 6), ("misc", 2), ("esc", 4)):
         for sh in range(n):
             out.append(task("vf.bounded.str_boundary", "run", f"str.{g}/bounded#{sh}", ["C03"], kind="bounded", replay="vf.bounded.str_boundary:replay",
                             group=g, shard=sh, nshards=n, budget_s=100 if tier == "quick" else 900, known_labels=kl))
